@@ -1343,6 +1343,7 @@ impl BufferParser for Parser {
                             1
                         };
                         (0..num).for_each(|_| caret.set_x_position(buf.terminal_state.next_tab_stop(caret.get_position().x)));
+                        buf.terminal_state.limit_caret_pos(buf, caret);
                         return Ok(CallbackAction::Update);
                     }
                     'Z' => {
@@ -1360,6 +1361,7 @@ impl BufferParser for Parser {
                             1
                         };
                         (0..num).for_each(|_| caret.set_x_position(buf.terminal_state.prev_tab_stop(caret.get_position().x)));
+                        buf.terminal_state.limit_caret_pos(buf, caret);
                         return Ok(CallbackAction::Update);
                     }
                     _ => {
